@@ -758,6 +758,8 @@ def import_library(libfilepointer):
     _UNIT_LIB.base_types = dict()
     _UNIT_LIB.unit_table = dict()
     _UNIT_LIB.prefixes = dict()
+    # names added to unit_table on the fly by prefixing a library unit (see _find_unit)
+    _UNIT_LIB.prefixed = set()
     _UNIT_LIB.help = list()
 
     for prefix, factor in _UNIT_LIB.items('prefixes'):
@@ -920,6 +922,9 @@ def _find_unit(unit, error=False):
 
                 unit_table = _UNIT_LIB.unit_table
                 prefixes = _UNIT_LIB.prefixes
+                # a prefix is never applied to a unit that is itself a prefixed unit added by an
+                # earlier lookup ('dam' is a decameter even after 'am' has been used)
+                prefixed = _UNIT_LIB.prefixed
 
                 for item in regex.findall(name):
                     item = re.sub(reg1, 'as_', item)
@@ -933,12 +938,16 @@ def _find_unit(unit, error=False):
                         base_unit = item[1:].rstrip('_')
 
                         # check for single letter prefix before unit
-                        if (item[0] in prefixes and base_unit in unit_table):
+                        if (item[0] in prefixes and base_unit in unit_table and
+                                base_unit not in prefixed):
                             add_unit(item, prefixes[item[0]] * unit_table[base_unit])
+                            prefixed.add(item)
 
                         # check for double letter prefix before unit
-                        elif (item[0:2] in prefixes and item[2:] in unit_table):
+                        elif (item[0:2] in prefixes and item[2:] in unit_table and
+                              item[2:] not in prefixed):
                             add_unit(item, prefixes[item[0:2]] * unit_table[item[2:]])
+                            prefixed.add(item)
 
                         # no prefixes found, unknown unit
                         else:
